@@ -174,8 +174,16 @@ class BuiltinModel:
             self.I.raise_("ZeroDivisionError")
         val = S.qpow(ra, e.t, self.path)
         ka = a.known_tag() if isinstance(a, VRat) else T_INT
+        sra = z3.simplify(ra)
         if ka == T_FRAC:
             tag = z3.IntVal(T_FRAC)
+        elif ka == T_DEC and z3.is_rational_value(sra) and \
+                sra.denominator_as_long() == 1 and \
+                sra.numerator_as_long() in (2, 5, 10):
+            # every integer power of 2, 5 or 10 has a finite decimal
+            # expansion: decimalfp keeps it a Decimal (A2)
+            self.ledger("A2: Decimal(2|5|10) ** int is a Decimal")
+            tag = z3.IntVal(T_DEC)
         else:
             tag = self.path.fresh("tag", z3.IntSort())
             self.path.assume(z3.Or(tag == T_DEC, tag == T_FRAC))
@@ -413,9 +421,8 @@ class BuiltinModel:
                         "OverflowError for 0")
             if self.path.branch(v.t == 0):
                 self.I.raise_("OverflowError")
-            m = self.path.fresh("mag", z3.IntSort())
-            ax = z3.If(v.t < 0, -v.t, v.t)
-            self.path.assume(z3.And(S.p10(m) <= ax, ax < S.p10(m + 1)))
+            m = S.mag(v.t)
+            self.path.assume(S.mag_fact(v.t))
             S.p10_facts(self.path, m)
             S.p10_facts(self.path, m + 1)
             return VInt(m)
@@ -424,8 +431,10 @@ class BuiltinModel:
             p = self.path.fresh("prec", z3.IntSort())
             k = self.path.fresh("precint", z3.IntSort())
             self.path.assume(p >= 0)
-            # x * 10^p is an integer, and p is minimal (p>0 => x*10^(p-1) not int)
+            # x * 10^p is an integer; p == 0 exactly for integral values
+            # (after adjusted() the precision is minimal)
             self.path.assume(v.t * S.p10(p) == z3.ToReal(k))
+            self.path.assume((p == 0) == S.is_int(v.t))
             S.p10_facts(self.path, p)
             return VInt(p)
         raise Unsupported(name)
@@ -1028,8 +1037,8 @@ class BuiltinModel:
             xv = rv(v)
             if self.path.branch(xv <= 0):
                 self.I.raise_("ValueError")
-            m = self.path.fresh("mag", z3.IntSort())
-            self.path.assume(z3.And(S.p10(m) <= xv, xv < S.p10(m + 1)))
+            m = S.mag(xv)
+            self.path.assume(S.mag_fact(xv))
             S.p10_facts(self.path, m)
             S.p10_facts(self.path, m + 1)
             return VInt(m)
@@ -1268,6 +1277,14 @@ class BuiltinModel:
                 return VRat(x.t, z3.IntVal(T_DEC))
             self.I.raise_("ValueError")
         if isinstance(x, VStr):
+            sx = z3.simplify(x.t)
+            if z3.is_string_value(sx):
+                try:
+                    fr = Fraction(sx.as_string())
+                    return VRat(z3.RealVal(f"{fr.numerator}/{fr.denominator}"),
+                                z3.IntVal(T_DEC))
+                except (ValueError, ZeroDivisionError):
+                    self.I.raise_("ValueError")
             self.ledger("A2: Decimal(str) parses exactly or raises ValueError")
             if self.path.branch(S.str_is_decimal(x.t)):
                 return VRat(S.str_to_real(x.t), z3.IntVal(T_DEC))
